@@ -260,3 +260,49 @@ Example C12_pool_nonvacuous :
   snd r = true /\ read_file (fst r) (pool_out ++ [s2b "a"]) = Some (s2b "113") /\
   read_file (fst r) (pool_out ++ [s2b "b"]) = Some (s2b "2").
 Proof. vm_compute. repeat split. Qed.
+
+(* ====================================================================================== *)
+(* Tie A, level 1 (work package linearT): helpers::linear_extract and StreamWriter, translated statement by
+   statement from /repo/mla/src/helpers.rs on every run (tools/src2v3_linear.py -> gen/Src3l.v), are the model's
+   for EVERY stream, export list and fuel (theories/SrcTie3Linear.v), and the theorems above hold of the
+   TRANSLATED function.  Trusted primitives: BufReader transparent; io::copy over a Take = Src3l.io_copy_take;
+   ArchiveFileBlock::from = Blocks.parse_block; a writer of `export` accepts what it is handed (sinks = the
+   log of (name, piece); sinks that split writes: C12_linear_any_sink). *)
+From MLA Require SrcTie3Reader SrcTie3Linear.
+From MLAGen Require Src3d Src3l.
+
+Theorem C12_tie_lx_loop_sim : ltac:(let t := type of SrcTie3Linear.lx_loop_sim in exact t).
+Proof. exact SrcTie3Linear.lx_loop_sim. Qed.
+Theorem C12_tie_linear_extract_sim : ltac:(let t := type of SrcTie3Linear.linear_extract_sim in exact t).
+Proof. exact SrcTie3Linear.linear_extract_sim. Qed.
+Theorem C12_tie_io_copy_take_src : ltac:(let t := type of SrcTie3Linear.io_copy_take_src in exact t).
+Proof. exact SrcTie3Linear.io_copy_take_src. Qed.
+Theorem C12_tie_ok_needs_marker_src : ltac:(let t := type of SrcTie3Linear.C12_ok_needs_marker_src in exact t).
+Proof. exact SrcTie3Linear.C12_ok_needs_marker_src. Qed.
+Theorem C12_tie_only_chosen_src : ltac:(let t := type of SrcTie3Linear.C12_only_chosen_src in exact t).
+Proof. exact SrcTie3Linear.C12_only_chosen_src. Qed.
+Theorem C12_tie_linear_delivers_written_src : ltac:(let t := type of SrcTie3Linear.C12_linear_delivers_written_src in exact t).
+Proof. exact SrcTie3Linear.C12_linear_delivers_written_src. Qed.
+Theorem C12_tie_stream_writer_write_src : ltac:(let t := type of SrcTie3Linear.stream_writer_write_src in exact t).
+Proof. exact SrcTie3Linear.stream_writer_write_src. Qed.
+Theorem C12_tie_stream_writer_flush_src : ltac:(let t := type of SrcTie3Linear.stream_writer_flush_src in exact t).
+Proof. exact SrcTie3Linear.stream_writer_flush_src. Qed.
+
+Print Assumptions C12_tie_lx_loop_sim.
+Print Assumptions C12_tie_linear_extract_sim.
+Print Assumptions C12_tie_io_copy_take_src.
+Print Assumptions C12_tie_ok_needs_marker_src.
+Print Assumptions C12_tie_only_chosen_src.
+Print Assumptions C12_tie_linear_delivers_written_src.
+Print Assumptions C12_tie_stream_writer_write_src.
+Print Assumptions C12_tie_stream_writer_flush_src.
+
+(* non-vacuity: the TRANSLATED linear_extract run on the two interleaved files of C12_example, choosing {b}:
+   Ok, b's writer received its piece, a's nothing; with the end marker cut off it fails *)
+Example C12_tie_example :
+  let run body := Src3l.linear_extract (Cursor body) 48 Src.BT_FileStart Src.BT_FileContent Src.BT_EndOfArchiveData Src.BT_EndOfFile
+                    100 (Src3d.mkAR (Cursor body) 7 None) (Src3l.mkExport [[98]] []) in
+  run ex_body = (Src3l.mkExport [[98]] [([98], [9; 8])], Ok tt) /\
+  let marker := len ex_body - 4 - le_val (dropN (len ex_body - 4) ex_body) - 1 in
+  is_ok (snd (run (takeN marker ex_body ++ dropN (marker + 1) ex_body))) = false.
+Proof. vm_compute. split; reflexivity. Qed.
